@@ -108,7 +108,8 @@ def facts_dir(repo=None, stage=1, target=None):
     suffix = "" if stage == 1 else "-s2"
     want = [os.path.join(d, "xs-lib%s.json" % suffix), os.path.join(d, "xs-bin%s.json" % suffix)]
     okfile = os.path.join(d, "ok%s" % suffix)
-    with open(os.path.join(CACHE, "extract.lock"), "w") as lk:
+    lockname = "extract-%s.lock" % hashlib.sha1(target.encode()).hexdigest()[:10]
+    with open(os.path.join(CACHE, lockname), "w") as lk:
         fcntl.flock(lk, fcntl.LOCK_EX)
         if os.path.exists(okfile) and all(os.path.exists(w) for w in want):
             return d
@@ -133,13 +134,18 @@ def facts_dir(repo=None, stage=1, target=None):
     return d
 
 
-def _prune_old_facts(keep, max_keep=6):
+def _prune_old_facts(keep, max_keep=40, min_age_s=1800):
     root = os.path.join(CACHE, "facts")
-    ds = [os.path.join(root, x) for x in os.listdir(root)]
-    ds = [x for x in ds if os.path.isdir(x) and x != keep]
-    ds.sort(key=os.path.getmtime, reverse=True)
-    for x in ds[max_keep:]:
-        shutil.rmtree(x, ignore_errors=True)
+    now = time.time()
+    try:
+        ds = [os.path.join(root, x) for x in os.listdir(root)]
+        ds = [x for x in ds if os.path.isdir(x) and x != keep]
+        ds.sort(key=os.path.getmtime, reverse=True)
+        for x in ds[max_keep:]:
+            if now - os.path.getmtime(x) > min_age_s:
+                shutil.rmtree(x, ignore_errors=True)
+    except OSError:
+        pass
 
 
 def setup():
